@@ -196,6 +196,21 @@ inductive Callback
 
 def natToken (k : Nat) : String := "i:" ++ toString k
 
+def InBatch.isData : InBatch → Bool
+  | .data .. => true
+  | .cancel => false
+
+/-- `Produce` / `Exchange` (as opposed to `OnCancel`). -/
+def Callback.isTurn : Callback → Bool
+  | .cancel => false
+  | _ => true
+
+/-- The turn number of a `Produce` / `Exchange` call. -/
+def Callback.index? : Callback → Option Nat
+  | .produce k => some k
+  | .exchange k _ => some k
+  | .cancel => none
+
 /-- Environment of the lockstep loop. -/
 structure LoopEnv where
   script : StreamScript
@@ -205,41 +220,64 @@ structure LoopEnv where
   inputSchema : Option Schema    -- exchange only
   rid : Bytes
 
+/-- Which exit of the lockstep loop was taken. -/
+inductive Stop
+  | eos          -- `!inputReader.Next()`: the client closed its input stream
+  | cancelled    -- a `vgi_rpc.cancel` batch
+  | finished     -- `out.Finished()` after the flush
+  | failed       -- cast / handler / validate error: one error batch, `break`
+  deriving Repr, DecidableEq
+
 structure LoopOut where
   batches : List Batch
   calls : List Callback
   err : Option SrvErr
+  stop : Stop
   deriving Repr, DecidableEq
+
+/-- The input value the state sees for a data batch: `castRecordBatch` when the stream has an input
+schema the batch's schema is not `Equal` to (exchange only), the batch itself otherwise. -/
+def casted (env : LoopEnv) (v : String) (lib : Option String) : Except SrvErr String :=
+  match env.inputSchema with
+  | some tgt => castInput env.srcSchema tgt v lib
+  | none => .ok v
+
+/-- The callback the state object receives for turn `k`. -/
+def callOf (env : LoopEnv) (k : Nat) (inVal : String) : Callback :=
+  if env.isProducer then .produce k else .exchange k inVal
+
+/-- What an `echo` statement emits in turn `k`. -/
+def echoOf (env : LoopEnv) (k : Nat) (inVal : String) : String :=
+  if env.isProducer then natToken k else inVal
+
+/-- Turn `k` of the stream on input value `inVal`: the collector afterwards and `streamErr`. -/
+def turnOf (env : LoopEnv) (k : Nat) (inVal : String) : Collector × Option SrvErr :=
+  runTurn env.isProducer (echoOf env k inVal) (env.script.turnAt k)
 
 /-- The lockstep loop of `serveStream` from turn `k` on, over the remaining input batches. -/
 def loop (env : LoopEnv) : Nat → List InBatch → LoopOut
-  | _, [] => { batches := [], calls := [], err := none }          -- `!inputReader.Next()`
+  | _, [] => { batches := [], calls := [], err := none, stop := .eos }   -- `!inputReader.Next()`
   | _, .cancel :: _ =>
     -- OnCancel (if implemented) runs once, errors and panics are swallowed; then `break`
-    { batches := [], calls := if env.hook = .absent then [] else [.cancel], err := none }
+    { batches := [], calls := if env.hook = .absent then [] else [.cancel], err := none, stop := .cancelled }
   | k, .data v lib :: rest =>
-    -- cast (exchange with a known input schema only)
-    let casted : Except SrvErr String :=
-      match env.inputSchema with
-      | some tgt => castInput env.srcSchema tgt v lib
-      | none => .ok v
-    match casted with
-    | .error e => { batches := [writeErrorBatch e env.rid], calls := [], err := some e }
+    match casted env v lib with
+    | .error e => { batches := [writeErrorBatch e env.rid], calls := [], err := some e, stop := .failed }
     | .ok inVal =>
-      let call : Callback := if env.isProducer then .produce k else .exchange k inVal
-      let echoVal := if env.isProducer then natToken k else inVal
-      match runTurn env.isProducer echoVal (env.script.turnAt k) with
+      match turnOf env k inVal with
       | (_, some e) =>
         -- stream-error-batch; the collector's batches are released, not written
-        { batches := [writeErrorBatch e env.rid], calls := [call], err := some e }
+        { batches := [writeErrorBatch e env.rid], calls := [callOf env k inVal], err := some e, stop := .failed }
       | (c, none) =>
         if !c.finished && !c.hasData then
-          { batches := [writeErrorBatch fwNoData env.rid], calls := [call], err := some fwNoData }
+          -- validate(): "No data batch was emitted"
+          { batches := [writeErrorBatch fwNoData env.rid], calls := [callOf env k inVal],
+            err := some fwNoData, stop := .failed }
         else if c.finished then
-          { batches := c.batches, calls := [call], err := none }
+          { batches := c.batches, calls := [callOf env k inVal], err := none, stop := .finished }
         else
           let r := loop env (k + 1) rest
-          { batches := c.batches ++ r.batches, calls := call :: r.calls, err := r.err }
+          { batches := c.batches ++ r.batches, calls := callOf env k inVal :: r.calls, err := r.err, stop := r.stop }
 
 structure StreamOut where
   streams : List IpcStream       -- everything written for this call, in order
@@ -257,6 +295,30 @@ def decideMode (t : StreamType) (st : StateKind) : Option Bool :=
   | .dynamic => if st.isProducerState then some true else if st.isExchangeState then some false else none
   | .producer => if st.isProducerState then some true else none
   | .exchange => if st.isExchangeState then some false else none
+
+/-- `writeStreamHeader`: the header is its own complete IPC stream (header schema); the init logs
+collected so far are drained into it, written with request id "". -/
+def headerStream (m : SMethod) (logs : List LogMessage) (h : String) : IpcStream :=
+  { schema := m.headerSchema, batches := logs.map (writeLogBatch · []) ++ [.data h []] }
+
+/-- `if info.HasHeader && streamResult.Header != nil { … }` -/
+def headerStreams (m : SMethod) (logs : List LogMessage) (header : Option String) : List IpcStream :=
+  match header with
+  | some h => if m.hasHeader then [headerStream m logs h] else []
+  | none => []
+
+/-- The input schema used for casting (exchange only): the registered one, else the one the
+`StreamResult` carries. -/
+def effectiveInputSchema (m : SMethod) (isProducer : Bool) (resInput : Option Schema) : Option Schema :=
+  if isProducer then none
+  else match m.inputSchema with
+    | some sc => some sc
+    | none => resInput
+
+def mkEnv (m : SMethod) (rid : Bytes) (s : StreamScript) (input : InputStream)
+    (isProducer : Bool) (hook : CancelHook) (resInput : Option Schema) : LoopEnv :=
+  { script := s, isProducer := isProducer, hook := hook, srcSchema := input.schema,
+    inputSchema := effectiveInputSchema m isProducer resInput, rid := rid }
 
 /-- `Server.serveStream` after successful parameter deserialization. -/
 def serveStream (m : SMethod) (lvl rid : Bytes) (s : StreamScript) (input : InputStream) : StreamOut :=
@@ -277,24 +339,11 @@ def serveStream (m : SMethod) (lvl rid : Bytes) (s : StreamScript) (input : Inpu
     | none =>
       { streams := [errorStream m.outputSchema fwBadState rid], calls := [], handlerErr := some fwBadState }
     | some isProducer =>
-      -- header stream: init logs are drained into it (request id "" there)
+      -- the header stream drains the init logs; otherwise they open the output stream
       let writesHeader := m.hasHeader && header.isSome
-      let headerStreams : List IpcStream :=
-        match header with
-        | some h => if m.hasHeader then
-            [{ schema := m.headerSchema, batches := ctx.logs.map (writeLogBatch · []) ++ [.data h []] }]
-          else []
-        | none => []
       let initLogs : List LogMessage := if writesHeader then [] else ctx.logs
-      let inputSchema : Option Schema :=
-        if isProducer then none
-        else match m.inputSchema with
-          | some sc => some sc
-          | none => resInput
-      let env : LoopEnv := { script := s, isProducer := isProducer, hook := hook,
-                             srcSchema := input.schema, inputSchema := inputSchema, rid := rid }
-      let r := loop env 0 input.batches
-      { streams := headerStreams ++
+      let r := loop (mkEnv m rid s input isProducer hook resInput) 0 input.batches
+      { streams := headerStreams m ctx.logs header ++
           [{ schema := m.outputSchema, batches := initLogs.map (writeLogBatch · rid) ++ r.batches }],
         calls := r.calls, handlerErr := r.err }
 
